@@ -146,6 +146,10 @@ func (ds *dataStore) load(fileName string) (err error) {
 		if flagHasOne(pkh.Flags, FLAG_KEY_TYPE_STRING) {
 			var str []byte
 			err = dec.Decode(&str)
+			if str == nil {
+				// an empty string is stored as a zero-length slice; nil means "not a string" elsewhere
+				str = []byte{}
+			}
 			payload = str
 		} else if flagHasOne(pkh.Flags, FLAG_KEY_TYPE_HASH_TABLE) {
 			var table map[string]string
